@@ -17,6 +17,9 @@ CONSTANTS
   BUG_STALE_TC = FALSE
   BUG_NESTED_FLAGS = FALSE
   OPS = {"clear", "clone", "clonef", "collect", "drop", "mark", "new", "put", "set", "take", "unwrap"}
+  AUTOF = TRUE
+  AUTO0 = FALSE
+  SZ = 152
 INVARIANT NoViolation
 INVARIANT StructInv
 VIEW View
